@@ -75,6 +75,11 @@ func unhx(s string) string {
 	return string(b)
 }
 
+// Settle gives a worker goroutine that is dying of a panic the time to take the process down before
+// the input is recorded as finished: the worker's deferred Done releases the main goroutine, which
+// would otherwise run on for a moment (and the crash would be pinned on a later input).
+func (r *Rec) Settle() { time.Sleep(3 * time.Millisecond) }
+
 // Fail records a property-oracle failure.
 func (r *Rec) Fail(sig, what string) { r.line(fmt.Sprintf("F %d %s %s", r.id, sig, hx(what))) }
 
